@@ -37,7 +37,7 @@ type c07Case struct {
 	WriteFail []int  `json:"write_failure_at"`
 	Delay     int    `json:"writer_delay_mode"` // 0 none, 1 Gosched, 2 sleep 20us every 16th, 3 sleep 1ms every 256th
 	GenBuf    int    `json:"request_channel_buffer"`
-	WriteErr  string `json:"write_failure_kind"` // "" plain error values | enobufs | eagain | eintr (bare errno values, as the kernel returns them)
+	WriteErr  string `json:"write_failure_kind"`           // "" plain error values | enobufs | eagain | eintr (bare errno values, as the kernel returns them)
 	ErrLagMs  int    `json:"error_reader_starts_after_ms"` // a consumer of the error stream that lags behind (errors queue up in the 100-slot buffers)
 }
 
@@ -152,7 +152,7 @@ type c07Method struct {
 }
 
 func (*c07Method) ProcessPacketData([]byte, *gopacket.CaptureInfo) error { return nil }
-func (*c07Method) Results() <-chan scan.Result                            { return nil }
+func (*c07Method) Results() <-chan scan.Result                           { return nil }
 
 func c07RealFiller(c c07Case) scan.PacketFiller {
 	switch c.Filler {
